@@ -178,7 +178,10 @@ def build(bins, release=False):
     for b in bins:
         cmd += ["--bin", b]
     t0 = time.time()
-    r = subprocess.run(cmd, cwd=HARNESS, env=env, capture_output=True, text=True)
+    try:
+        r = subprocess.run(cmd, cwd=HARNESS, env=env, capture_output=True, text=True, timeout=2400)
+    except subprocess.TimeoutExpired:
+        raise ToolError("cargo build of the executor did not finish in 40 minutes (a compile-time loop in the crate under test?)")
     if r.returncode != 0:
         sys.stderr.write(r.stderr[-6000:])
         raise ToolError("cargo build failed")
